@@ -95,6 +95,7 @@ class Helper(T.NamedTuple):
     inner: int                      # index (among the call arguments) of the node that is emitted
     flag: T.Optional[int]           # index of the boolean that switches the parentheses (None: unconditional)
     sem: T.Dict[bool, bool]         # flag value -> parentheses are written
+    params: T.Tuple[str, ...] = ()  # parameter names (without self), for keyword calls
 
 
 def paren_helpers(ctx: RuleCtx, mod: Module, cls: str) -> T.Dict[str, Helper]:
@@ -136,7 +137,7 @@ def paren_helpers(ctx: RuleCtx, mod: Module, cls: str) -> T.Dict[str, Helper]:
             sem[conds[f]] = op
         if set(sem) != {True, False}:
             raise Undecided(f'{cls}.{name}: could not determine when parentheses are written')
-        out[name] = Helper(name, inner, params.index(flag) if flag else None, sem)
+        out[name] = Helper(name, inner, params.index(flag) if flag else None, sem, tuple(params))
     return out
 
 
@@ -171,12 +172,21 @@ def emissions(fn: ast.FunctionDef, helpers: T.Dict[str, Helper]) -> T.List[Emiss
                 out.append(Emission(a, None, None, c))
             continue
         h = _self_call(c)
+        if h is None and isinstance(c.func, ast.Attribute) and c.func.attr in helpers and c.args and norm(c.args[0]) == params[0]:
+            h = c.func.attr                         # Class.helper(self, ...)
+            c = ast.Call(func=c.func, args=c.args[1:], keywords=c.keywords)
+            ast.copy_location(c, c.func)
         if h in helpers:
             hp = helpers[h]
-            if hp.inner < len(c.args):
-                a = operand(c.args[hp.inner])
+            # bind by signature: positional index or keyword name
+            bound: T.Dict[int, ast.AST] = {i: a_ for i, a_ in enumerate(c.args)}
+            for k in c.keywords:
+                if k.arg in hp.params:
+                    bound[hp.params.index(k.arg)] = k.value
+            if hp.inner in bound:
+                a = operand(bound[hp.inner])
                 if a is not None:
-                    g = c.args[hp.flag] if hp.flag is not None and hp.flag < len(c.args) else None
+                    g = bound.get(hp.flag) if hp.flag is not None else None
                     if hp.flag is not None and g is None:
                         raise Undecided(f'{fn.name}: call of {h} without its flag argument')
                     out.append(Emission(a, g, hp, c))
